@@ -33,15 +33,42 @@ func keyFromBytes(b []byte) (key, int, error) { return key(b), len(b), nil }
 func valToBytes(v val) ([]byte, error)        { return v, nil }
 func valFromBytes(b []byte) (val, int, error) { return val(b), len(b), nil }
 
-func setRootToBytes(r setRoot) ([]byte, error) { return r[:], nil }
-func setRootFromBytes(b []byte) (setRoot, int, error) {
-	var r setRoot
+// prefixedRootCodec selects the second identifier codec: the stored form of a root is 0xAB followed by the 32 bytes (a
+// versioned identifier encoding) instead of the bare 32 bytes. It is set from caseSpec.RootCodec when a case starts.
+var prefixedRootCodec bool
+
+func rootBytes(r [32]byte) ([]byte, error) {
+	if prefixedRootCodec {
+		return append([]byte{0xAB}, r[:]...), nil
+	}
+
+	return r[:], nil
+}
+
+func rootFromBytes(b []byte) (r [32]byte, n int, err error) {
+	if prefixedRootCodec {
+		if len(b) < 33 || b[0] != 0xAB {
+			return r, 0, fmt.Errorf("malformed prefixed root: % x", b)
+		}
+		copy(r[:], b[1:33])
+
+		return r, 33, nil
+	}
 	if len(b) < 32 {
 		return r, 0, fmt.Errorf("short root: %d bytes", len(b))
 	}
 	copy(r[:], b)
 
 	return r, 32, nil
+}
+
+func mapRootToBytes(r [32]byte) ([]byte, error)        { return rootBytes(r) }
+func mapRootFromBytes(b []byte) ([32]byte, int, error) { return rootFromBytes(b) }
+func setRootToBytes(r setRoot) ([]byte, error)         { return rootBytes(r) }
+func setRootFromBytes(b []byte) (setRoot, int, error) {
+	r, n, err := rootFromBytes(b)
+
+	return setRoot(r), n, err
 }
 
 // valuePool: what a Set may store. Index 0 is the zero value (encodes to nil), index 1 an empty non-nil value.
@@ -112,7 +139,7 @@ func openInst(flavour string, store kvstore.KVStore) inst {
 		return setInst{ads.NewSet[setRoot](store, setRootToBytes, setRootFromBytes, keyToBytes, keyFromBytes)}
 	}
 
-	return mapInst{ads.NewMap[[32]byte](store, typeutils.ByteArray32ToBytes, typeutils.ByteArray32FromBytes, keyToBytes, keyFromBytes, valToBytes, valFromBytes)}
+	return mapInst{ads.NewMap[[32]byte](store, mapRootToBytes, mapRootFromBytes, keyToBytes, keyFromBytes, valToBytes, valFromBytes)}
 }
 
 func newStore(kind string) kvstore.KVStore {
@@ -122,6 +149,33 @@ func newStore(kind string) kvstore.KVStore {
 		if err != nil {
 			panic(err)
 		}
+		return s
+	case "mapdb_sibling", "mapdb_realm0":
+		// the instance under test shares its database with another authenticated map that lives in a sibling realm
+		// and already holds committed entries; "realm0": the instance's own realm is the single byte 0x00
+		db := mapdb.NewMapDB()
+		neighbourRealm, ownRealm := []byte{0x01}, []byte{0x02}
+		if kind == "mapdb_realm0" {
+			ownRealm = []byte{0x00}
+		}
+		ns, err := db.WithRealm(neighbourRealm)
+		if err != nil {
+			panic(err)
+		}
+		neighbour := ads.NewMap[[32]byte](ns, typeutils.ByteArray32ToBytes, typeutils.ByteArray32FromBytes, keyToBytes, keyFromBytes, valToBytes, valFromBytes)
+		for _, k := range []string{"neighbour-1", "neighbour-2", "neighbour-3"} {
+			if err := neighbour.Set(key(k), val("x")); err != nil {
+				panic(err)
+			}
+		}
+		if err := neighbour.Commit(); err != nil {
+			panic(err)
+		}
+		s, err := db.WithRealm(ownRealm)
+		if err != nil {
+			panic(err)
+		}
+
 		return s
 	case "flushkv":
 		return flushkv.New(mapdb.NewMapDB())
@@ -141,10 +195,12 @@ type action struct {
 }
 
 type caseSpec struct {
-	Flavour string   `json:"flavour"` // map | set
-	Store   string   `json:"store"`   // mapdb | mapdb_realm | flushkv
-	Keys    []string `json:"keys"`    // hex of the working-set keys
-	Actions []action `json:"actions"`
+	Flavour string `json:"flavour"` // map | set
+	Store   string `json:"store"`   // mapdb | mapdb_realm | mapdb_sibling | mapdb_realm0 | flushkv
+	// RootCodec: "" = identifiers are stored as their 32 bytes; "prefixed" = stored as 0xAB || 32 bytes
+	RootCodec string   `json:"root_codec,omitempty"`
+	Keys      []string `json:"keys"` // hex of the working-set keys
+	Actions   []action `json:"actions"`
 }
 
 func (c *caseSpec) canon() string {
@@ -170,7 +226,7 @@ func (c *caseSpec) render() any {
 		acts = append(acts, s)
 	}
 
-	return map[string]any{"flavour": c.Flavour, "store": c.Store, "keys_hex": c.Keys, "actions": acts}
+	return map[string]any{"flavour": c.Flavour, "store": c.Store, "root_codec": c.RootCodec, "keys_hex": c.Keys, "actions": acts}
 }
 
 // what a run observed (for stats; never influences the verdict)
@@ -400,6 +456,8 @@ func decodeKeys(c *caseSpec) ([]string, error) {
 
 // runCase executes the history and judges it. nil = property held on this history.
 func runCase(c *caseSpec, info *runInfo) *failure {
+	prefixedRootCodec = c.RootCodec == "prefixed"
+	defer func() { prefixedRootCodec = false }()
 	if info == nil {
 		info = &runInfo{}
 	}
